@@ -268,7 +268,8 @@ pub assume_specification<T, P> [std::option::Option::<T>::filter] (_0: std::opti
     ensures _0 is None ==> r is None,
             r matches Some(v) ==> _0 == Some(v) && _1.ensures((&v,), true),
             (_0 is Some && r is None) ==> _1.ensures((&_0->Some_0,), false),
-;
+        // the predicate returned SOME boolean for the element, and the result follows it
+        _0 is Some ==> exists|__b: bool| _1.ensures((&_0->Some_0,), __b) && r == (if __b { _0 } else { None::<T> });
 pub assume_specification<'a, T> [std::option::Option::<&T>::copied] (_0: std::option::Option<&'a T>) -> (r: std::option::Option<T>)
     where T: std::marker::Copy,
     ensures r == (match _0 { Some(v) => Some(*v), None => None }),
